@@ -3,7 +3,7 @@
      forall T v e, no_implicit_no_any T -> encode DER true 0 T v = Ok e ->
        exists T' w, decode BER None e = Ok (DV T' w, []) /\ encode DER true 0 T' w = Ok e /\ leaves T' w = leaves T v. *)
 From PV Require Import Base.Bytes Model.Tag Model.Types Model.TableTypes Model.Enc Model.Dec Gen.Tables
-     Proofs.Schemaless Proofs.TagsetShape Proofs.RoundTrip1 Proofs.SchemalessRT Proofs.SchemalessRT2.
+     Proofs.Schemaless Proofs.TagsetShape Proofs.RoundTrip1 Proofs.SchemalessRT Proofs.SchemalessRT2 Proofs.RoundTripModesC Proofs.RoundTripModes Proofs.SchemalessRT3.
 Local Open Scope N_scope.
 
 (* the type object built for a scalar decoded without a schema carries exactly the tags met on the
@@ -65,3 +65,43 @@ Theorem C16_schemaless_roundtrip_containers : forall ce cd aset T v b tl,
     /\ encode DER true 0 T0 v0 = encode DER true 0 T v.
 Proof. exact schemaless_roundtrip_containers. Qed.
 Print Assumptions C16_schemaless_roundtrip_containers.
+
+(* ... in EVERY mode of the BER encoder (definite, indefinite, segmented strings), SET OF and SET included,
+   read without a guiding type by the BER and CER decoders; outside finding F01 in indefinite mode *)
+Theorem C16_schemaless_roundtrip_every_mode : forall cd d chunk T v b tl,
+  dec_ok cd -> sl_frag true T = true -> (d = false -> RoundTripModes.no_f01 T = true) -> sl_val BER cd T v = true ->
+  encode BER d chunk T v = Ok b -> N.of_nat (length b) <= index_max ->
+  exists T0 v0, decode cd None (b ++ tl) = Ok (DV T0 v0, tl)
+    /\ tagset_of T0 = tagset_of T
+    /\ skel T0 v0 = skel T v
+    /\ leaves T0 v0 = leaves T v
+    /\ encode DER true 0 T0 v0 = encode DER true 0 T v.
+Proof. exact schemaless_roundtrip_ber_modes. Qed.
+Print Assumptions C16_schemaless_roundtrip_every_mode.
+
+(* the CER encoder, whatever options the caller passes *)
+Theorem C16_schemaless_roundtrip_cer : forall cd d k T v b tl,
+  dec_ok cd -> sl_frag false T = true -> RoundTripModes.no_f01 T = true -> sl_val CER cd T v = true ->
+  encode CER d k T v = Ok b -> N.of_nat (length b) <= index_max ->
+  exists T0 v0, decode cd None (b ++ tl) = Ok (DV T0 v0, tl)
+    /\ tagset_of T0 = tagset_of T
+    /\ skel T0 v0 = skel T v
+    /\ leaves T0 v0 = leaves T v
+    /\ encode DER true 0 T0 v0 = encode DER true 0 T v.
+Proof. exact schemaless_roundtrip_cer_encoder. Qed.
+Print Assumptions C16_schemaless_roundtrip_cer.
+
+(* types with OPTIONAL components some of which are absent: without a schema they are simply not there;
+   the conclusion holds against the type and value pruned of them (prune) *)
+Theorem C16_schemaless_roundtrip_optional : forall cd d chunk T v b tl,
+  dec_ok cd -> prunable T v = true -> sl_frag true (fst (prune T v)) = true ->
+  (d = false -> RoundTripModes.no_f01 (fst (prune T v)) = true) ->
+  sl_val BER cd (fst (prune T v)) (snd (prune T v)) = true ->
+  encode BER d chunk T v = Ok b -> N.of_nat (length b) <= index_max ->
+  exists T0 v0, decode cd None (b ++ tl) = Ok (DV T0 v0, tl)
+    /\ tagset_of T0 = tagset_of T
+    /\ skel T0 v0 = skel T v
+    /\ leaves T0 v0 = leaves T v
+    /\ encode DER true 0 T0 v0 = encode DER true 0 (fst (prune T v)) (snd (prune T v)).
+Proof. exact schemaless_roundtrip_optional. Qed.
+Print Assumptions C16_schemaless_roundtrip_optional.
